@@ -133,3 +133,137 @@ func TestTimerAndAbort(t *testing.T) {
 	})
 	t.Logf("execs=%d outcomes=%v", st.Executions, st.Outcomes)
 }
+
+func outcomesOf(st *verifrt.Stats) string {
+	var ks []string
+	for k := range st.Outcomes {
+		ks = append(ks, k)
+	}
+	sortStrings(ks)
+	return fmt.Sprint(ks)
+}
+
+func sortStrings(a []string) {
+	for i := range a {
+		for j := i + 1; j < len(a); j++ {
+			if a[j] < a[i] {
+				a[i], a[j] = a[j], a[i]
+			}
+		}
+	}
+}
+
+// sleep sets must preserve the set of outcomes of the full unbounded search
+func TestSleepSets(t *testing.T) {
+	bodies := map[string]func(){
+		"pipeline": func() {
+			ch := make(chan int)
+			ctx, cancel := verifrt.WithCancel(context.Background())
+			out := make(chan int)
+			var mu sync.Mutex
+			shared := 0
+			verifrt.Go(func() {
+				defer verifrt.Close(out)
+				for {
+					v, ok := verifrt.Recv2(ch)
+					if !ok {
+						return
+					}
+					mu.Lock()
+					shared += v
+					mu.Unlock()
+					switch verifrt.Select(false, verifrt.DoneCase(ctx), verifrt.SendCase(out)) {
+					case 0:
+						<-ctx.Done()
+						return
+					case 1:
+						out <- v
+						verifrt.AfterSend()
+					}
+				}
+			})
+			verifrt.Go(func() {
+				for i := 1; i <= 2; i++ {
+					verifrt.BeforeSend(ch)
+					ch <- i
+					verifrt.AfterSend()
+				}
+				verifrt.Close(ch)
+			})
+			verifrt.Go(func() { mu.Lock(); shared *= 2; mu.Unlock(); cancel() })
+			got := []int{}
+			for {
+				v, ok := verifrt.Recv2(out)
+				if !ok {
+					break
+				}
+				got = append(got, v)
+			}
+			verifrt.WaitIdle()
+			mu.Lock()
+			verifrt.Logf("got=%v shared=%d alive=%d", got, shared, len(verifrt.Alive()))
+			mu.Unlock()
+		},
+		"locks": func() {
+			var a, b sync.Mutex
+			x, y := 0, 0
+			var wg sync.WaitGroup
+			wg.Add(3)
+			verifrt.Go(func() {
+				defer wg.Done()
+				a.Lock()
+				x = x*2 + 1
+				l := x
+				a.Unlock()
+				b.Lock()
+				y += l
+				b.Unlock()
+			})
+			verifrt.Go(func() {
+				defer wg.Done()
+				b.Lock()
+				y = y*3 + 1
+				b.Unlock()
+				a.Lock()
+				x += 5
+				a.Unlock()
+			})
+			verifrt.Go(func() { defer wg.Done(); a.Lock(); x += 7; a.Unlock() })
+			wg.Wait()
+			verifrt.Logf("x=%d y=%d", x, y)
+		},
+		"stamps": func() {
+			var wg sync.WaitGroup
+			wg.Add(2)
+			var s1, s2, s3, s4 int64
+			verifrt.Go(func() { defer wg.Done(); s1 = verifrt.Stamp(); s2 = verifrt.Stamp() })
+			verifrt.Go(func() { defer wg.Done(); s3 = verifrt.Stamp(); s4 = verifrt.Stamp() })
+			wg.Wait()
+			verifrt.Logf("%v %v %v", s2 < s3, s4 < s1, s1 < s3)
+		},
+	}
+	for name, body := range bodies {
+		or := func(x *verifrt.ExecResult) verifrt.Verdict {
+			return verifrt.Verdict{Outcome: fmt.Sprint(x.Status, x.Log, x.Msg)}
+		}
+		full := verifrt.Explore(verifrt.Config{Name: name, Bound: -1}, body, or)
+		red := verifrt.Explore(verifrt.Config{Name: name, Bound: -1, Sleep: true}, body, or)
+		t.Logf("%s: full execs=%d outcomes=%d | sleep execs=%d blocked=%d outcomes=%d", name, full.Executions, len(full.Outcomes), red.Executions, red.SleepBlocked, len(red.Outcomes))
+		if outcomesOf(full) != outcomesOf(red) {
+			t.Fatalf("%s: outcome sets differ\nfull:  %s\nsleep: %s", name, outcomesOf(full), outcomesOf(red))
+		}
+		// sharded sleep exploration covers the same outcomes
+		merged := map[string]bool{}
+		var total int64
+		for sh := 0; sh < 3; sh++ {
+			st := verifrt.Explore(verifrt.Config{Name: name, Bound: -1, Sleep: true, Shard: sh, NShards: 3}, body, or)
+			total += st.Executions
+			for k := range st.Outcomes {
+				merged[k] = true
+			}
+		}
+		if len(merged) != len(full.Outcomes) || total != red.Executions {
+			t.Fatalf("%s: sharded sleep run differs: outcomes %d vs %d, execs %d vs %d", name, len(merged), len(full.Outcomes), total, red.Executions)
+		}
+	}
+}
